@@ -402,9 +402,41 @@ import json as _json
 import os as _os
 
 _V = _os.path.dirname(_os.path.dirname(_os.path.abspath(__file__)))
+# ------------------------------------------------------------------------------------------------ wave 8 (C01 term table, C11 chain conversion, C09 entry gauge, TTNO.apply convention)
+_TREE = "renormalizer/tn/tree.py"
+_APPLY_MORE = [{"file": _TREE, "old": "output_indices.extend([indices1[-1], indices2[-1]])", "new": "output_indices.extend([indices2[-1], indices1[-1]])"},
+               {"file": _TREE, "old": "add_outer(snode1.qn, onode.qn).reshape(output_shape[-1]", "new": "add_outer(onode.qn, snode1.qn).reshape(output_shape[-1]"},
+               {"file": _TREE, "old": "output_shape.append(snode1.shape[i] * onode.shape[i])", "new": "output_shape.append(onode.shape[i] * snode1.shape[i])"}]
+for _p in ("C03", "C11", "C12"):
+    T(_p, f"twin-apply-operator-major-{_p}", _TREE, "output_indices.extend([indices1[i], indices2[i]])", "output_indices.extend([indices2[i], indices1[i]])",
+      "TTNO.apply merges every bond operator-major and builds the labels in the same order: a consistent change of convention", more=_APPLY_MORE)
+M("C12", "apply-labels-operator-major", _TREE, "add_outer(snode1.qn, onode.qn).reshape(output_shape[-1]", "add_outer(onode.qn, snode1.qn).reshape(output_shape[-1]", ["state-network"],
+  "labels of the merged parent bond built operator-major while the tensor is state-major")
+T("C11", "twin-from-mps-qnidx-len", _TREE, "mps.move_qnidx(len(mps) + 1)", "mps.move_qnidx(len(mps))", "any boundary at or beyond the last bond leaves every label a left-system label")
+M("C11", "from-mps-qnidx-last-site", _TREE, "mps.move_qnidx(len(mps) + 1)", "mps.move_qnidx(len(mps) - 1)", ["chain-conversion"], "root label becomes the right-system label (zero) instead of the total")
+M("C11", "from-mps-no-canonical", _TREE, "    mps.ensure_left_canonical()\n    mps.move_qnidx", "    mps.move_qnidx", ["chain-conversion"], "chain not brought to left-canonical form: the root is not the centre")
+M("C11", "from-mps-label-shift", _TREE, "node.qn = mps.qn[i + 1]", "node.qn = mps.qn[i]", ["chain-conversion"], "node gets the label of the bond below it")
+_SYMF = "renormalizer/mps/symbolic_mpo.py"
+M("C01", "term-table-factor-of-term", _SYMF, "        factor_list.append(factor)\n\n    # const", "        factor_list.append(op.factor)\n\n    # const", ["term-table"],
+  "coefficient taken before split_elementary folded the elementary operators' factors in")
+M("C01", "term-table-const-first", _SYMF, "        factor_list.append(const)\n        table.append(table_entry)", "        factor_list.insert(0, const)\n        table.append(table_entry)", ["term-table"],
+  "constant's coefficient put first while its row is last")
+T("C01", "twin-term-table-enumerate", _SYMF, "    for op in terms:\n        elem_ops, factor = op.split_elementary(model.dof_to_siteidx)", "    for _k, op in enumerate(terms):\n        elem_ops, factor = op.split_elementary(model.dof_to_siteidx)",
+  "loop written with enumerate")
+_MPSF = "renormalizer/mps/mps.py"
+M("C09", "vmf-gauge-on-flag", _MPSF, "        if not (self.evolve_config.force_ovlp and not self.to_right):\n            self.ensure_left_canonical()", "        if self.to_right:\n            self.ensure_left_canonical()", ["entry-gauge"],
+  "VMF trusts the direction flag")
+M("C09", "cmf-no-gauge", _MPSF, "            coef = 1j\n\n        self.ensure_left_canonical()\n", "            coef = 1j\n\n", ["entry-gauge"], "CMF no longer orthonormalises its input")
+M("C09", "ps-gauge-wrong-end", _MPSF, "        if mps.to_right:\n            mps.ensure_right_canonical()\n        else:\n            mps.ensure_left_canonical()\n\n        # construct the environment matrix\n        # almost half is not used. Not a big deal.\n        environ = Environ(mps, mpo)\n\n        # statistics for debug output\n        local_steps = []\n        # sweep for 2 rounds\n        for i in range(2):\n            for imps in mps.iter_idx_list(full=True):",
+  "        mps.ensure_left_canonical()\n        mps.to_right = True\n\n        # construct the environment matrix\n        # almost half is not used. Not a big deal.\n        environ = Environ(mps, mpo)\n\n        # statistics for debug output\n        local_steps = []\n        # sweep for 2 rounds\n        for i in range(2):\n            for imps in mps.iter_idx_list(full=True):", ["entry-gauge"],
+  "PS1: centre brought to the last site but the sweep told to start at the first")
+T("C09", "twin-ps-gauge-before-copy", _MPSF, "        if mps.to_right:\n            mps.ensure_right_canonical()\n        else:\n            mps.ensure_left_canonical()\n\n        # construct the environment matrix\n        # almost half is not used. Not a big deal.\n        environ = Environ(mps, mpo)\n\n        # statistics for debug output\n        local_steps = []\n        # sweep for 2 rounds\n        for i in range(2):\n            for imps in mps.iter_idx_list(full=True):",
+  "        mps = mps.canonicalise() if False else mps\n        if mps.to_right:\n            mps.ensure_right_canonical()\n        else:\n            mps.ensure_left_canonical()\n\n        # construct the environment matrix\n        # almost half is not used. Not a big deal.\n        environ = Environ(mps, mpo)\n\n        # statistics for debug output\n        local_steps = []\n        # sweep for 2 rounds\n        for i in range(2):\n            for imps in mps.iter_idx_list(full=True):",
+  "dead conditional expression in front of the gauge preparation")
+
 _FIX_EXPECT = {1: ("C03", ["qn-align"]), 2: ("C03", ["qn-charge"]), 3: ("C10", ["evolve"]), 4: ("C13", ["effect-bound", "TTNS.evolve"]), 5: ("C13", ["compressed_sum"]),
                6: ("C15", ["array-truth"]), 7: ("C16", ["sho-product"]), 8: ("C16", ["copy-forward"]), 9: ("C14", ["crash-points"]), 10: ("C09", ["krylov-hermitian"]),
-               11: ("C08", ["heff-network"]), 12: ("C09", ["adaptive-reject"]), 13: ("C17", ["jw-vocabulary"]), 14: ("C10", ["imag-reentry"]), 15: ("C10", ["thermal-hamiltonian"])}
+               11: ("C08", ["heff-network"]), 12: ("C09", ["adaptive-reject"]), 13: ("C17", ["jw-vocabulary"]), 14: ("C10", ["imag-reentry"]), 15: ("C10", ["thermal-hamiltonian"]), 16: ("C09", ["entry-gauge"])}
 for _f in sorted(_os.listdir(_os.path.join(_V, "renostat", "selftest_patches"))):
     if _f.startswith("fix-"):
         _n = int(_f.split("-")[1])
